@@ -443,3 +443,59 @@ def install_decimal_dispatch(w):
             props=["C10"],
         )
     )
+
+    install_batch4(w)
+
+
+def install_batch4(w):
+    from sqlglot import exp
+
+    E = exp.Expression
+    T = "exp.DataType.Type"
+    NEW = ["*.parent", "$ghost:$treever"]
+
+    # ------------------------------------------------------------------ C10: ARRAY_AGG(x) WITHIN GROUP (ORDER BY ...) orders the aggregate
+    WG = "(isinstance(expression, exp.WithinGroup) and find_array_agg(expression) is not None and bool(arg(expression, 'expression')))"
+    w.add_contract(
+        Contract(
+            "fakesnow.transforms.array_agg_within_group",
+            params={"expression": E},
+            # field shape (A-SQLGLOT 1): WITHIN GROUP's `expression` is the Order node (or absent)
+            requires=["implies(isinstance(expression, exp.WithinGroup) and bool(arg(expression, 'expression')), isinstance(arg(expression, 'expression'), exp.Expression))"],
+            result=E,
+            modifies=NEW,
+            ensures={
+                # ARRAY_AGG(<the aggregated expression> ORDER BY <exactly the WITHIN GROUP order keys>)
+                "C10.within_group.ordered_agg": f"implies(old({WG}), is_fresh(result) and cls_is(result, exp.ArrayAgg) and cls_is(arg(result, 'this'), exp.Order) "
+                "and arg(arg(result, 'this'), 'this') is old(arg(find_array_agg(expression), 'this')))",
+                "C10.within_group.order_keys": f"implies(old({WG}) and old(seq_len(node_expressions(arg(expression, 'expression')))) > 0, "
+                "node_expressions(arg(result, 'this')) is old(node_expressions(arg(expression, 'expression'))))",
+                "C10.within_group.else_untouched": f"implies(not old({WG}), result is expression)",
+            },
+            props=["C10"],
+        )
+    )
+
+    # ------------------------------------------------------------------ C10: DATEDIFF over string literals works on them as timestamps
+    O1, O2 = "arg(result, 'this')", "arg(result, 'expression')"
+    L1 = "(isinstance(arg(expression, 'this'), exp.Literal) and bool(arg(arg(expression, 'this'), 'is_string')))"
+    L2 = "(isinstance(arg(expression, 'expression'), exp.Literal) and bool(arg(arg(expression, 'expression'), 'is_string')))"
+    w.add_contract(
+        Contract(
+            "fakesnow.transforms.datediff_string_literal_timestamp_cast",
+            params={"expression": E},
+            # field shapes (A-SQLGLOT 1): both operands of a parsed DATEDIFF are nodes; a Literal's is_string is a bool or absent
+            requires=["implies(isinstance(expression, exp.DateDiff), isinstance(arg(expression, 'this'), exp.Expression) and isinstance(arg(expression, 'expression'), exp.Expression))",
+                      "implies(isinstance(expression, exp.DateDiff) and isinstance(arg(expression, 'this'), exp.Literal), arg(arg(expression, 'this'), 'is_string') is None or isinstance(arg(arg(expression, 'this'), 'is_string'), bool))",
+                      "implies(isinstance(expression, exp.DateDiff) and isinstance(arg(expression, 'expression'), exp.Literal), arg(arg(expression, 'expression'), 'is_string') is None or isinstance(arg(arg(expression, 'expression'), 'is_string'), bool))"],
+            result=E,
+            modifies=NEW,
+            ensures={
+                "C10.datediff_literal.copy": "implies(isinstance(expression, exp.DateDiff), is_fresh(result) and same_class(result, expression))",
+                "C10.datediff_literal.first": f"implies(isinstance(expression, exp.DateDiff) and old({L1}), cls_is({O1}, exp.Cast) and cls_is(arg({O1}, 'to'), exp.DataType) and arg(arg({O1}, 'to'), 'this') == {T}.TIMESTAMP)",
+                "C10.datediff_literal.second": f"implies(isinstance(expression, exp.DateDiff) and old({L2}), cls_is({O2}, exp.Cast) and cls_is(arg({O2}, 'to'), exp.DataType) and arg(arg({O2}, 'to'), 'this') == {T}.TIMESTAMP)",
+                "C10.datediff_literal.else_untouched": "implies(not isinstance(expression, exp.DateDiff), result is expression)",
+            },
+            props=["C10"],
+        )
+    )
